@@ -70,7 +70,7 @@ def _run_chunk(args):
                             res = mod.run(plan, stats)
                     except SimWatchdog:
                         res = RunResult([Violation(mod.PROP, 'live', 'wall-clock-hang',
-                                                   {'seed': seed, 'note': f'run spun for {GUARD.LIMIT_S}s of wall time '
+                                                   {'seed': seed, 'note': f'run spun for {GUARD.LIMIT_S}s of CPU time '
                                                     'without reaching a seam (hang guard); not minimised'})], 'hang')
                     finally:
                         GUARD.disarm()
